@@ -120,8 +120,10 @@ func (s *Entry) newChildLogger(args ...any) *Entry {
 		return l
 	}
 
-	s.items[name] = newentry(s, args...)
-	return s.items[name]
+	child := newentry(s, args...)
+	child.name = name // an anonymous child reports the generated name it is indexed under
+	s.items[name] = child
+	return child
 }
 
 func (s *Entry) Each(cb func(l *Entry, depth int)) {
